@@ -383,7 +383,13 @@ def truth(interp, v):
     if concrete_num(v):
         return v != 0
     if isinstance(v, OptionalVal):
-        return v.present
+        # None is falsy; otherwise the payload's own truthiness (a present 0 / 0.0 is falsy too)
+        inner = truth(interp, v.value)
+        if inner is True:
+            return v.present
+        if inner is False:
+            return False
+        return conj([v.present, inner])
     if isinstance(v, StrSeq):
         if any(isinstance(p, str) and p for p in v.parts):
             return True
